@@ -187,6 +187,15 @@ INNER = {'cxr': 'C', 'set': 'SET_C', 'map': 'MAP_C'}
 BODY = [{'prim': '$user_code'}]
 
 
+MAP_BODIES = {   # code arguments of MAP_C q R the handler must pass down untouched, whatever they look like
+    'plain': [{'prim': '$user_code'}],
+    'empty': [],
+    'single-CAR': [{'prim': 'CAR'}],
+    'single-DIP-2': [{'prim': 'DIP', 'args': [{'int': '2'}, [{'prim': '$user_code'}]]}],
+    'nested-seq': [[{'prim': '$user_code'}, {'prim': 'DUP'}]],
+}
+
+
 def documented(fam, letter, H, body):
     first = {'prim': 'CAR'} if letter == 'A' else {'prim': 'CDR'}
     if fam == 'cxr':
@@ -200,14 +209,15 @@ def field_annots(annots):
     return [a for a in annots if a.startswith('%')]
 
 
-def h_step(mac, fam, letter, annots):
+def h_step(mac, fam, letter, annots, body_label='plain'):
     handler = {('cxr', 'A'): 'expand_caxr', ('cxr', 'D'): 'expand_cdxr', ('set', 'A'): 'expand_set_caxr', ('set', 'D'): 'expand_set_cdxr',
                ('map', 'A'): 'expand_map_caxr', ('map', 'D'): 'expand_map_cdxr'}[(fam, letter)]
-    tag = f'{handler}[annots={"+".join(annots) or "none"}]'
+    tag = f'{handler}[annots={"+".join(annots) or "none"}' + (f',body={body_label}]' if body_label != 'plain' else ']')
 
     def h(e: Engine):
+        import copy
         q = GLetters('q', 1)
-        body = [BODY] if fam == 'map' else []
+        body = [copy.deepcopy(MAP_BODIES[body_label])] if fam == 'map' else []
         calls = []
 
         def hyp(eng, a, k):
@@ -562,10 +572,10 @@ def run_P(ck, mac):
     n0 = len([1 for o in ck.obligations]) if hasattr(ck, 'obligations') else 0
     for fam in ('cxr', 'set', 'map'):
         for letter in 'AD':
-            for annots in ([], ['%f', '@v']):
+            for annots, bl in [([], 'plain'), (['%f', '@v'], 'plain')] + ([([], b) for b in MAP_BODIES if b != 'plain'] if fam == 'map' else []):
                 eng = Engine()
                 eng.axioms.extend(axioms())
-                run_harness(ck, eng, h_step(mac, fam, letter, annots), f'step[{fam},{letter}]')
+                run_harness(ck, eng, h_step(mac, fam, letter, annots, bl), f'step[{fam},{letter},{bl}]')
                 report(ck, eng, [_replayer(h + '[') for h in HANDLERS[:6]], kind='P', prefix='step:')
                 functions_interpreted(ck, eng)
     for which, annots, bl in [('DIP', [], b) for b in BODIES] + [('DUP', [], 'plain'), ('DUP', ['@x'], 'plain')]:
